@@ -94,8 +94,22 @@ def run_case(spec):
            "versions_a": {"who": "A", "r": rng.randint(0, 99)}, "versions_b": {"who": "B", "r": rng.randint(100, 199)},
            "plan_a": make_plan(rng, "A", rng.randint(1, 4), 60, gates=("any", "key", "verified")),
            "plan_b": make_plan(rng, "B", rng.randint(1, 4), 60, gates=("any", "key", "verified"))}
+    dilated = spec["seed"] % 5 == 3
+    if dilated:
+        # both wormholes are also being dilated: dilate-N control records share the mailbox with the numbered phases
+        cfg["dilation"] = True
+        cfg["api_a"] = cfg["api_b"] = "deferred"
     drv = TwoParty(world, cfg)
+    if dilated:
+        for app in (drv.a, drv.b):
+            try:
+                app.w.dilate()
+            except Exception as e:
+                world.escapes.append((world.step, "app", "dilate()", type(e).__name__, repr(e)[:200], ""))
     adv = Tamper(world, spec["ops"])
+    if dilated:
+        from ..adversary import ReorderDup
+        adv.downstream = ReorderDup(world, p_dup=0.0)     # and the server hands everything out in any order
     adv.names = {drv.a.w._boss._side: "A", drv.b.w._boss._side: "B"}
     world.adversary = adv
     sch = Scheduler(world, drv, strategy=rng.choice(STRATS), chunking="whole")
@@ -171,7 +185,7 @@ def run_case(spec):
     verdicts = [a.close_results[0] if a.closed else "never" for a in (drv.a, drv.b)]
     return {"violations": viol, "nontrivial": nontrivial,
             "counters": {"tampered_sent": len(adv.tampered), "tampered_processed": processed, "delivered": delivered,
-                         "complete_despite_tamper": int(drv.all_delivered()),
+                         "complete_despite_tamper": int(drv.all_delivered()), "dilated_cases": int(dilated),
                          **{"op_" + o["op"]: 1 for o in spec["ops"]},
                          **{"verdict_" + v: 1 for v in verdicts},
                          "notrans_seen": len(MON.notrans), "log_errors_seen": len(MON.errors)},
